@@ -11,6 +11,10 @@ where
     }
     fn read(&self, offset: Offset, buf: &mut [u8]) -> std::io::Result<usize> {
         let o = offset.force_into_usize();
+        if o > self.as_ref().len() {
+            // Nothing to read after the end.
+            return Ok(0);
+        }
         let mut slice = &self.as_ref()[o..];
         Read::read(&mut slice, buf)
     }
@@ -30,7 +34,11 @@ where
     }
 
     fn get_slice(&self, region: ARegion, block_check: BlockCheck) -> Result<Cow<[u8]>> {
-        debug_assert!(region.end().force_into_usize() <= self.as_ref().len());
+        let end = region.end().force_into_usize() + block_check.size();
+        let our_size = self.as_ref().len();
+        if end > our_size {
+            return Err(format_error!(format!("Out of slice. {end} > {our_size}")));
+        }
         if let BlockCheck::Crc32 = block_check {
             let full_slice = &self.as_ref()[region.begin().force_into_usize()
                 ..region.end().force_into_usize() + BlockCheck::Crc32.size()];
